@@ -3,15 +3,17 @@
 TLC: IwpExact.tla (Taylor/Pascal transition, Hilbert-type process noise; semigroup, Chapman-Kolmogorov,
 linearity, integral definition) and ExpGramExact.tla (nilpotent drifts: finite sums for expm and the Gramian;
 Lyapunov identity, semigroup, Chapman-Kolmogorov), evaluated exactly on every instance.
-bind: Wiener priors of the three factorisations, dense exponential / integrated-OU priors, and
-gram_util.exp_gram_cholesky with all five Pade/Legendre orders in float64 and float32.
+MaternExact.tla (drift = companion matrix of (s+z)^D over all D = given + diffuse coefficients; F = N - zI with N nilpotent,
+so transition and Gramian are exact rational matrices times two scalar transcendental factors).
+bind: Wiener priors of the three factorisations, dense exponential / integrated-OU / Matern priors (with and without
+diffuse derivatives), and gram_util.exp_gram_cholesky with all five Pade/Legendre orders in float64 and float32.
 """
 
 from __future__ import annotations
 
 import random
 
-from harness import exact, priors
+from harness import exact, matern, priors
 from harness.report import Report
 
 
@@ -73,9 +75,30 @@ def run(tier: str, seed: int) -> int:
         rep.sample({"family": fam, **{k: str(v) for k, v in inst.items()}}, cap=8)
         for op, detail in bad:
             rep.violation(f"impl:{fam}:{op}", f"{fam} n={inst['n']}: {op} {detail}", {"instance": {k: str(v) for k, v in inst.items()}})
+    # ---- Matern priors (rate z = sqrt(2 nu)/length_scale rational, D = given + diffuse coefficients)
+    n_mt = 10 if tier == "quick" else 80
+    mts = [matern.instance(rng, D=D) for D in (1, 2, 3, 4)] + [matern.instance(rng) for _ in range(n_mt - 4)]
+    res, dropped, st, gen, fail = exact.eval_instances("MaternExact", [matern.to_tla(i) for i in mts], invariants=["CheckAndPrint"], batch=6)
+    rep.states += st
+    rep.transitions += gen
+    ndrop += len(dropped)
+    if fail is not None:
+        rep.violation(f"spec:MaternExact:{fail[0].violated}", "MaternExact law violated", {"tlc_tail": fail[0].stdout[-3000:]})
+    for j, inst in enumerate(mts):
+        if j not in res:
+            continue
+        try:
+            bad = matern.check(inst, res[j])
+        except Exception as e:  # raised inside the library on a legal configuration
+            bad = [("exception", f"{type(e).__name__}: {str(e)[:200]}")]
+        rep.traces += 1
+        rep.add_case(("matern", j) if inst["D"] >= 2 else None)
+        rep.sample({"family": "matern", **{k: str(v) for k, v in inst.items()}}, cap=10)
+        for op, detail in bad:
+            rep.violation(f"impl:matern:{op}", f"Matern prior: {op} {detail}", {"instance": {k: str(v) for k, v in inst.items()}})
     rep.extra["instances_dropped_for_32bit_overflow"] = ndrop
     rep.assumptions = [
-        "drift matrices with non-zero spectrum (OU with a rate, Matern) have transcendental transitions and are not modelled; nilpotent drifts exercise the same code path (scaling, Pade, Legendre, doubling)",
+        "general drift matrices with non-zero spectrum (OU with a non-nilpotent rate matrix) have transcendental transitions and are not modelled; nilpotent drifts exercise the same code path (scaling, Pade, Legendre, doubling); the Matern drift is a scalar shift of a nilpotent matrix and is modelled exactly up to two scalar factors (exp, regularised incomplete gamma from scipy)",
         "float64 compared at 1e-9 (priors) / 1e-11 (gram_util), float32 at 2e-4",
     ]
     return rep.finish()
